@@ -259,6 +259,29 @@ theorem C15_multimap_text (kvs : List (S × S)) (hz : ∀ p ∈ kvs, p.1.all isA
     multiMapText (printMap kvs) = some (.ok kvs) := by
   simp only [multiMapText, C15_map_text_scans kvs hz, Option.map_some, C15_multimap_tokens kvs hne]
 
+/-- The text form is unambiguous: two lists of ASCII strings with the same printed text are the same list (so a set or
+slice can never be confused with another one after a round trip through a flag's text). -/
+theorem C15_print_slice_injective (zs zs' : List S) (hz : ∀ z ∈ zs, z.all isAscii = true)
+    (hz' : ∀ z ∈ zs', z.all isAscii = true) (h : printSlice zs = printSlice zs') : zs = zs' := by
+  have h1 := C15_slice_text zs hz
+  have h2 := C15_slice_text zs' hz'
+  rw [h, h2] at h1
+  simpa using h1.symm
+
+/-- ... and the same for the printed pairs of a map (non-empty keys, as printed by the helpers in key order). -/
+theorem C15_print_map_injective (kvs kvs' : List (S × S))
+    (hz : ∀ p ∈ kvs, p.1.all isAscii = true ∧ p.2.all isAscii = true) (hz' : ∀ p ∈ kvs', p.1.all isAscii = true ∧ p.2.all isAscii = true)
+    (hne : ∀ p ∈ kvs, p.1 ≠ []) (hne' : ∀ p ∈ kvs', p.1 ≠ []) (h : printMap kvs = printMap kvs') : kvs = kvs' := by
+  have h1 := C15_multimap_text kvs hz hne
+  have h2 := C15_multimap_text kvs' hz' hne'
+  rw [h, h2] at h1
+  simpa using h1.symm
+
+/-- strconv.Quote is injective on ASCII strings. -/
+theorem C15_quote_injective (z z' : S) (hz : z.all isAscii = true) (hz' : z'.all isAscii = true) (h : quote z = quote z') : z = z' := by
+  have := C15_print_slice_injective [z] [z'] (by simpa using hz) (by simpa using hz') (by simpa [printSlice] using h)
+  simpa using this
+
 /-- non-vacuity and the characters the property names: commas, colons, quotes, backslashes, control characters
 (incl. NUL, newline, DEL) inside the strings, the empty string, evaluated through the whole text path -/
 theorem C15_text_examples :
